@@ -70,7 +70,7 @@ def binding_selftest(c, tp):
         elif variant == 1:
             out[i]['marker'] = nver + 5                 # decided by a version that never existed
         else:
-            j = next(k for k in reqs if out[k]['res'] in ('f_r2', 'i_r2'))
+            j = next(k for k in reqs if out[k]['res'] in ('f_r2', 'i_r2', 'p_r2'))
             out[j]['marker'] = 3                        # a decision on the untouched resource was disturbed
         cp = os.path.join(c.scratch, 'corrupt%d.ndjson' % variant)
         write_ndjson(cp, out)
@@ -162,7 +162,7 @@ def check(c, tier, replay):
                      'goroutines + 2 churn goroutines per module + readers); non-trivial = requests on a churned resource whose [invocation, return] '
                      'overlaps a rule load of its module (counted by the driver from the atomic sequence numbers)' % (runs, nver, ntraffic))
     c.assumptions += ['data-race freedom is judged by the Go race detector on the executions this driver produces (sampled schedules, not exhaustive)',
-                      'version-identifying rule lists only for flow and isolation; the other modules are exercised for races / panics / deadlock only',
+                      'version-identifying rule lists for flow, isolation and hotspot; circuit breaker, system and outlier are exercised for races / panics / deadlock only',
                       'sequence numbers are drawn from one atomic counter before a call and after its return']
 
 
